@@ -26,6 +26,16 @@ for q, fi in sorted(m.funcs.items()):
         out[q[len(m.pkg) + 1:]] = {n: dict(c) for n, c in sorted(sig.items())}
         out[q[len(m.pkg) + 1:]]["__order__"] = [
             n for n in alpha.first_occurrence_order(fi.node) if n in sig]
+srcs = {}
+for q, fi in sorted(m.funcs.items()):
+    if fi.module in skip:
+        continue
+    try:
+        srcs[q[len(m.pkg) + 1:]] = ast.unparse(fi.node)
+    except Exception:
+        pass
+with open(os.path.join(VERIF, "reference", "sources.json"), "w") as fh:
+    json.dump(srcs, fh, indent=0, sort_keys=True)
 out["__normaliser__"] = alpha.normaliser_digest()
 with open(os.path.join(VERIF, "reference", "locals.json"), "w") as fh:
     json.dump(out, fh, indent=0, sort_keys=True)
